@@ -261,6 +261,12 @@ fn judge_place(rec: &mut Recorder, c: &place::PlaceCase, ex: Exec, _hello: &Valu
             return rec.fail(&sig("stub-returns-wrong-value"), format!("stub returns {r:#x}, expected {}; trace {:?}", o.expected_value, o.decode_trace));
         }
     }
+    if let Some(v) = o.early_value {
+        rec.class("called-while-being-installed");
+        if v != o.expected_value {
+            return rec.fail(&sig("call-during-installation-missed-the-fake"), format!("a call made when the library had just patched and flushed the entry (before the installing call returned) came back with {v}, the fake returns {}; case {c:?}", o.expected_value));
+        }
+    }
     for (i, v) in o.calls.iter().enumerate() {
         if *v != o.expected_value {
             return rec.fail(&sig("call-returned-wrong-value"), format!("call #{i} (0 = installing thread, others = extra threads) returned {v}, the fake returns {}; case {c:?}", o.expected_value));
